@@ -16,6 +16,7 @@ package vrt
 
 import (
 	"fmt"
+	"math"
 	"os"
 	"reflect"
 	"runtime"
@@ -939,6 +940,14 @@ func Quiesce() {
 }
 
 // Sleep lets virtual time pass for the calling thread.
+// satAdd: a deadline centuries away must not wrap around into the past (the Go runtime saturates too).
+func satAdd(now, d int64) int64 {
+	if d > 0 && now > math.MaxInt64-d {
+		return math.MaxInt64
+	}
+	return now + d
+}
+
 func Sleep(d time.Duration) {
 	wd := w
 	if wd == nil {
@@ -953,7 +962,7 @@ func Sleep(d time.Duration) {
 		wd.park(t, pendingOp{kind: opNone, label: "sleep0"})
 		return
 	}
-	wd.park(t, pendingOp{kind: opSleep, wakeAt: wd.now + int64(d), label: label(wd)})
+	wd.park(t, pendingOp{kind: opSleep, wakeAt: satAdd(wd.now, int64(d)), label: label(wd)})
 }
 
 // Now returns the virtual wall-clock time.
@@ -981,7 +990,7 @@ func NewTimer(d, period time.Duration) (chan time.Time, int) {
 	if wd == nil {
 		panic("vrt.NewTimer without world")
 	}
-	tm := &timer{id: len(wd.timers), c: c, deadline: wd.now + int64(d), period: int64(period), active: true}
+	tm := &timer{id: len(wd.timers), c: c, deadline: satAdd(wd.now, int64(d)), period: int64(period), active: true}
 	wd.timers = append(wd.timers, tm)
 	return c, tm.id
 }
@@ -1005,7 +1014,7 @@ func ResetTimer(id int, d time.Duration) bool {
 	tm := wd.timers[id]
 	was := tm.active
 	tm.active = true
-	tm.deadline = wd.now + int64(d)
+	tm.deadline = satAdd(wd.now, int64(d))
 	return was
 }
 
